@@ -89,6 +89,12 @@ impl Prop for PPrintf {
         let mut v = w.gen(rng, idx, tier);
         v["cfg"]["sorted"] = json!(true);
         v["cfg"]["prune"] = json!([]);
+        // unreadable directories belong to C02 (they need the binary run as an unprivileged user)
+        for t in v["tree"].as_array_mut().unwrap() {
+            if let Some(o) = t.as_object_mut() {
+                o.remove("noread");
+            }
+        }
         // -H with -depth and a starting point that is a link to a directory is a recorded finding of the
         // traversal properties (C02/C03/C18); it is not what this property is about
         if v["cfg"]["mode"] == "H" && v["cfg"]["depth"] == true {
